@@ -68,11 +68,12 @@ def missed():
         m = json.load(open(mp))
         tot += 1
         fv = m.get('first_version', 'caught')
-        if fv.startswith('missed'):
+        if fv.startswith('missed') or fv.startswith('strengthened'):
             n += 1
-            out.append('* `%s` — %s; now %s' % (os.path.basename(d), fv.replace('missed; strengthened: ', 'strengthened with '),
+            out.append('* `%s` — %s; now %s' % (os.path.basename(d), fv.replace('missed; strengthened: ', 'missed; strengthened with '),
                                              'caught by ' + ', '.join(m['caught_by']) if m.get('caught_by') else 'STILL MISSED'))
-    return ('%d of the %d changes were missed by the first version of a check and led to stronger generators/oracles '
+    return ('%d of the %d changes were missed by the version of the check that existed when they were written (or, in round 3, '
+            'were evaluated only after the check had been strengthened from the report) and led to stronger generators/oracles '
             '(the property theorems did not change; what grew is the part of the input space on which model and code are compared):\n\n' % (n, tot)
             + '\n'.join(out))
 
